@@ -425,10 +425,18 @@ def replay(f):
         if p['detcat']:
             det = SourceCatalog(c, SegmentationImage(segarr.copy()),
                                 mask=mask, progress_bar=False)
+        d0, e0, b0 = d.copy(), e.copy(), b.copy()
+        m0 = None if mask is None else mask.copy()
         cat = SourceCatalog(d, SegmentationImage(segarr.copy()), error=e,
                             background=b, mask=mask, convolved_data=conv,
                             detection_cat=det, progress_bar=False)
         got = _props(cat)
+        if f['key'] == 'catalog:input-modified':
+            bad = not (np.array_equal(d, d0, equal_nan=True)
+                       and np.array_equal(e, e0, equal_nan=True)
+                       and np.array_equal(b, b0, equal_nan=True)
+                       and (mask is None or np.array_equal(mask, m0)))
+            return bad, f'input modified: {bad}' 
         if f['key'] == 'catalog:renumber':
             labels = [int(l) for l in np.unique(segarr[segarr > 0])]
             seg2 = segarr.copy()
